@@ -606,6 +606,8 @@ def _ref_stmt(st, env, prog):
         d = st["dim"]
         name, lab = (d, None) if isinstance(d, str) else (d[0], list(d[1]))
         i, size, axis = st["internal"], st["size"], st["axis"]
+        if -len(a.internal) <= i < 0:
+            i += len(a.internal)
         if name in a.dims or not (0 <= i < len(a.internal)) or not (1 <= size <= a.internal[i]) or not (0 <= axis <= a.nnode):
             raise RefUndefined("expand arguments")
         if lab is not None and len(lab) != size:
@@ -1006,6 +1008,8 @@ class Gen:
             size = m + 1 if (bad and rng.random() < 0.3) else rng.randint(1, m)
             nm = self.name("e")
             dim = nm if rng.random() < 0.6 else [nm, self.labels_for(size if not bad else size + 1, "str")]
+            if rng.random() < 0.35:
+                i -= ind          # the same internal axis counted from the end (numpy.take accepts negative axes)
             return self.push({"op": "expand", "a": k, "dim": dim, "internal": i, "size": size, "axis": rng.randint(0, len(names))})
         if kind == "broadcast":
             # the other action: shares some of k's dimensions (same labels) and brings new ones
